@@ -570,6 +570,18 @@ pub fn run(ctx: &RunCtx) -> i32 {
     for i in 0..rounds {
         concurrent_round(&mut total, &secrets, &mut g, &rt_mt, &rt, i);
     }
+    // crash points and system-call faults (child processes under strace)
+    match crate::monitor::c19crash::strace_works() {
+        Err(e) => total.inconclusive(format!("crash leg not run: {e}")),
+        Ok(()) => {
+            let combos = crate::monitor::c19crash::combos(ctx.tier);
+            let crash = par_run(ctx.workers, combos.len() as u64, |j, r| {
+                let (op, size, prev) = &combos[j as usize];
+                crate::monitor::c19crash::run_combo(r, ctx.tier, op, *size, *prev);
+            });
+            total.merge(crash);
+        }
+    }
     let ranks = total.sets.get("concurrent_winner_completion_rank_from_last").map_or(0, |s| s.len());
     if ranks < 2 && total.violation_count.is_empty() {
         total.inconclusive("fewer than 2 distinct winner ranks among concurrent writers were observed: the writers did not overlap");
@@ -586,6 +598,12 @@ pub fn replay(v: &Value) -> i32 {
             let case: Case = serde_json::from_value(w["case"].clone()).unwrap_or_else(|e| harness_error(&format!("bad case: {e}")));
             for _ in 0..5 {
                 judge(&rt, &mut r, &case);
+            }
+        }
+        "crash" => {
+            let case: crate::monitor::c19crash::CrashCase = serde_json::from_value(w["case"].clone()).unwrap_or_else(|e| harness_error(&format!("bad case: {e}")));
+            for _ in 0..3 {
+                crate::monitor::c19crash::judge(&rt, &mut r, &case);
             }
         }
         k => harness_error(&format!("C19: a witness of kind {k:?} (a concurrent round) is replayed by re-running ./check C19 with the recorded seed")),
